@@ -187,7 +187,7 @@ def run(seed):
         m = table[id(node.expr)]
         ops = ['delete', 'replace', 'insert', 'append', 'remove'] if PROP != 'C14' else []
         if PROP in ('C14', 'C15'):
-            ops += ['rename', 'string', 'args-slice', 'args-reverse', 'args-append']
+            ops += ['rename', 'string', 'args-slice', 'args-reverse', 'args-append', 'args-same', 'args-reverse-assign']
         op = rnd.choice(ops)
         twin = has_twin(m) if m.parent is not None else False
         # the real parent of a node inside an argument group is the command/environment owning the group: delete and
@@ -277,6 +277,17 @@ def run(seed):
                     continue
                 node.args.reverse()
                 m.args.reverse()
+            elif op == 'args-same':                    # the live list assigned back: nothing changes (aliasing)
+                if m.cls not in ('cmd', 'env') or not m.args:
+                    continue
+                node.args = node.args
+            elif op == 'args-reverse-assign':          # the live list reordered in place and assigned back
+                if m.cls not in ('cmd', 'env') or len(m.args) < 2:
+                    continue
+                live = node.args
+                live.reverse()
+                node.args = live
+                m.args.reverse()
             elif op == 'args-append':
                 if m.cls not in ('cmd', 'env'):
                     continue
@@ -295,7 +306,7 @@ def run(seed):
             # every later difference in this history is the same finding D9)
             return [(finding_class(op, twin or twin_seen, inserted and op not in ('replace', 'insert', 'append')) or 'edit-not-local',
                      'document %r after %s: text is %r, the reference model gives %r' % (s, '; '.join(hist), got, want))]
-        if PROP == 'C14' and op in ('rename', 'string', 'args-slice', 'args-reverse', 'args-append'):
+        if PROP == 'C14' and op in ('rename', 'string', 'args-slice', 'args-reverse', 'args-append', 'args-same', 'args-reverse-assign'):
             try:
                 again = TexSoup(got)
                 if str(again) != got:
